@@ -344,44 +344,102 @@ theorem swap_adjacent_toks (l₁ l₂ : List Tok) (t₁ t₂ : Tok) (h : sameFam
     (collect {} (l₁ ++ t₁ :: t₂ :: l₂)).map assemble = (collect {} (l₁ ++ t₂ :: t₁ :: l₂)).map assemble :=
   collect_order_independent _ _ (same_of_swap l₁ l₂ t₁ t₂ h)
 
-/-- for command lines without a bare optional-valued option the tokens are the arguments, one by one -/
-def bareOptValue (s : Str) : Bool :=
-  match lex s with
-  | .opt o none => decide (o.kind = .optValue)
-  | _ => false
+/-! ## `lexAll` without its step count -/
 
-def NoBareOptValue (l : List Str) : Prop := ∀ s ∈ l, bareOptValue s = false
+theorem lexAllF_fuel : ∀ (n m : Nat) (l : List Str), l.length ≤ n → l.length ≤ m → lexAllF n l = lexAllF m l := by
+  intro n
+  induction n with
+  | zero =>
+    intro m l hn _
+    have : l = [] := List.length_eq_zero_iff.mp (Nat.le_zero.mp hn)
+    subst this
+    cases m <;> rfl
+  | succ n ih =>
+    intro m l hn hm
+    cases l with
+    | nil => cases m <;> rfl
+    | cons s rest =>
+      cases m with
+      | zero => simp at hm
+      | succ m =>
+        have hrn : rest.length ≤ n := by simpa using hn
+        have hrm : rest.length ≤ m := by simpa using hm
+        have key : ∀ X : List Str, X.length ≤ rest.length → lexAllF n X = lexAllF m X :=
+          fun X hX => ih m X (Nat.le_trans hX hrn) (Nat.le_trans hX hrm)
+        have hd : (rest.drop 1).length ≤ rest.length := by simp only [List.length_drop]; omega
+        have hif : ∀ b : Bool, (if b = true then rest.drop 1 else rest).length ≤ rest.length := by
+          intro b; cases b <;> simp only [Bool.false_eq_true, if_false, if_true] <;> omega
+        simp only [lexAllF, key rest (Nat.le_refl _), key _ hd, key _ (hif _)]
 
-theorem lexAll_eq_map (l : List Str) (h : NoBareOptValue l) : lexAll l = l.map lex := by
+theorem lexAll_nil : lexAll [] = [] := rfl
+
+/-- the defining equation of `lexAll` -/
+theorem lexAll_cons (s : Str) (rest : List Str) :
+    lexAll (s :: rest) =
+      match shortBody s with
+      | some body =>
+        (lexShort body rest.head?).1 ++ lexAll (if (lexShort body rest.head?).2 then rest.drop 1 else rest)
+      | none =>
+        match lex s with
+        | .opt o none =>
+          match rest.head? with
+          | some v =>
+            if o.kind ≠ .flag ∧ isValue v then .opt o (some v) :: lexAll (rest.drop 1)
+            else .opt o none :: lexAll rest
+          | none => .opt o none :: lexAll rest
+        | t => t :: lexAll rest := by
+  have key : ∀ X : List Str, X.length ≤ rest.length → lexAllF rest.length X = lexAll X :=
+    fun X hX => lexAllF_fuel _ _ _ hX (Nat.le_refl _)
+  have hd : (rest.drop 1).length ≤ rest.length := by simp only [List.length_drop]; omega
+  have hif : ∀ b : Bool, (if b = true then rest.drop 1 else rest).length ≤ rest.length := by
+    intro b; cases b <;> simp only [Bool.false_eq_true, if_false, if_true] <;> omega
+  show lexAllF (rest.length + 1) (s :: rest) = _
+  simp only [lexAllF, key rest (Nat.le_refl _), key _ hd, key _ (hif _)]
+  cases shortBody s <;> rfl
+
+/-! ## arguments that are one token each -/
+
+/-- an argument that is a token of its own whatever follows it: a positional, `--flag`, `--name=value` (a valued
+option written without `=value` takes the NEXT argument; a cluster of one-letter options may give several tokens) -/
+def oneToken (s : Str) : Bool :=
+  (shortBody s).isNone &&
+    (match lex s with
+     | .opt o none => decide (o.kind = .flag)
+     | _ => true)
+
+def OneTokenEach (l : List Str) : Prop := ∀ s ∈ l, oneToken s = true
+
+theorem lexAll_eq_map (l : List Str) (h : OneTokenEach l) : lexAll l = l.map lex := by
   induction l with
   | nil => rfl
   | cons s rest ih =>
-    have hrest : NoBareOptValue rest := fun x hx => h x (List.mem_cons_of_mem _ hx)
-    cases rest with
-    | nil => rfl
-    | cons v rest' =>
-      have ih' := ih hrest
-      unfold lexAll
-      split
-      · rename_i o heq
-        have hk : o.kind ≠ .optValue := by
-          have := h s (List.mem_cons_self)
-          unfold bareOptValue at this
-          rw [heq] at this
+    have hrest : OneTokenEach rest := fun x hx => h x (List.mem_cons_of_mem _ hx)
+    have hs := h s List.mem_cons_self
+    unfold oneToken at hs
+    simp only [Bool.and_eq_true, Option.isNone_iff_eq_none] at hs
+    rw [lexAll_cons, hs.1, List.map_cons, ← ih hrest]
+    cases hl : lex s with
+    | file n => rfl
+    | other => rfl
+    | opt o v =>
+      cases v with
+      | some x => rfl
+      | none =>
+        have hk : o.kind = .flag := by
+          have := hs.2
+          rw [hl] at this
           simpa using this
-        simp only [hk, false_and, if_false, List.map_cons]
-        rw [ih', List.map_cons, heq]
-      · rename_i t hne
-        rw [ih']
-        rfl
+        cases hh : rest.head? with
+        | none => simp only
+        | some v => simp only [hk, ne_eq, not_true_eq_false, false_and, if_false]
 
 /-- 4a. swapping two adjacent arguments of different families (not both positionals, not both occurrences of the
-same option) anywhere on the command line does not change what `parseArgs` answers — provided no BARE optional-valued
-option (`--merge`, `--group-by`, `--combine` without `=`) occurs: clap gives such an option the next argument as value -/
+same option) anywhere on the command line does not change what `parseArgs` answers — for arguments that are one token
+each (`oneToken`): an option written without `=value` takes the argument after it, which must then move with it -/
 theorem swap_adjacent (l₁ l₂ : List Str) (s₁ s₂ : Str) (h : sameFamily (lex s₁) (lex s₂) = false)
-    (hb : NoBareOptValue (l₁ ++ s₁ :: s₂ :: l₂)) :
+    (hb : OneTokenEach (l₁ ++ s₁ :: s₂ :: l₂)) :
     parseArgs (l₁ ++ s₁ :: s₂ :: l₂) = parseArgs (l₁ ++ s₂ :: s₁ :: l₂) := by
-  have hb' : NoBareOptValue (l₁ ++ s₂ :: s₁ :: l₂) := by
+  have hb' : OneTokenEach (l₁ ++ s₂ :: s₁ :: l₂) := by
     intro x hx
     apply hb x
     simp only [List.mem_append, List.mem_cons] at hx ⊢
@@ -400,6 +458,152 @@ theorem bare_merge_takes_next :
     lexAll ["--merge".toList, "f.json".toList] = [.opt .group (some "f.json".toList)] ∧
     lexAll ["f.json".toList, "--merge".toList] = [.file "f.json".toList, .opt .group none] ∧
     lexAll ["--merge".toList, "--unique".toList] = [.opt .group none, .opt .unique none] := by
+  decide
+
+/-! ## every spelling of an option gives the same token -/
+
+/-- no one-letter name is `-` or `=` -/
+theorem findShort_ne (c : Char) (o : Opt) (h : findShort c = some o) : c ≠ '-' ∧ c ≠ '=' := by
+  have h1 : findShort '-' = none := by decide
+  have h2 : findShort '=' = none := by decide
+  constructor <;> (intro hc; subst hc; simp_all)
+
+theorem shortBody_short (c : Char) (more : Str) (hc : c ≠ '-') : shortBody ('-' :: c :: more) = some (c :: more) := by
+  unfold shortBody
+  split <;> simp_all
+
+theorem shortBody_long (x : Str) : shortBody ('-' :: '-' :: x) = none := rfl
+
+/-- `-c value` (two arguments) -/
+theorem short_two_args (c : Char) (o : Opt) (v : Str) (rest : List Str) (hc : findShort c = some o)
+    (hk : o.kind ≠ .flag) (hv : isValue v = true) :
+    lexAll (['-', c] :: v :: rest) = .opt o (some v) :: lexAll rest := by
+  rw [lexAll_cons, shortBody_short c [] (findShort_ne c o hc).1]
+  simp [lexShort, hc, hk, hv]
+
+/-- `-c=value` -/
+theorem short_equals (c : Char) (o : Opt) (v : Str) (rest : List Str) (hc : findShort c = some o)
+    (hk : o.kind ≠ .flag) :
+    lexAll (('-' :: c :: '=' :: v) :: rest) = .opt o (some v) :: lexAll rest := by
+  rw [lexAll_cons, shortBody_short c _ (findShort_ne c o hc).1]
+  simp [lexShort, hc, hk]
+
+/-- `-cvalue` -/
+theorem short_attached (c : Char) (o : Opt) (v : Str) (rest : List Str) (hc : findShort c = some o)
+    (hk : o.kind ≠ .flag) (hv0 : v ≠ []) (hv1 : v.head? ≠ some '=') :
+    lexAll (('-' :: c :: v) :: rest) = .opt o (some v) :: lexAll rest := by
+  rw [lexAll_cons, shortBody_short c _ (findShort_ne c o hc).1]
+  cases v with
+  | nil => exact absurd rfl hv0
+  | cons x xs =>
+    have hx : x ≠ '=' := by simpa using hv1
+    simp only [lexShort, hc, hk, if_false]
+    split
+    · rename_i heq
+      simp only [List.cons.injEq] at heq
+      exact absurd heq.1 hx
+    · rename_i heq
+      simp at heq
+    · simp
+
+/-- a flag letter in front of a cluster: `-uX…` = `-u` then `-X…` -/
+theorem short_flag_first (c : Char) (o : Opt) (more : Str) (rest : List Str) (hc : findShort c = some o)
+    (hk : o.kind = .flag) (hm : more ≠ []) (hm1 : more.head? ≠ some '-') :
+    lexAll (('-' :: c :: more) :: rest) = .opt o none :: lexAll (('-' :: more) :: rest) := by
+  cases more with
+  | nil => exact absurd rfl hm
+  | cons x xs =>
+    have hx : x ≠ '-' := by simpa using hm1
+    rw [lexAll_cons, shortBody_short c _ (findShort_ne c o hc).1, lexAll_cons, shortBody_short x _ hx]
+    simp [lexShort, hc, hk]
+
+/-- a long name: not empty, no `=` in it -/
+def plainName (n : Str) : Bool := !n.isEmpty && !n.contains '='
+
+theorem takeWhile_plain (n rest : Str) (h : n.contains '=' = false) :
+    (n ++ '=' :: rest).takeWhile (· ≠ '=') = n ∧ (n ++ '=' :: rest).dropWhile (· ≠ '=') = '=' :: rest := by
+  induction n with
+  | nil => simp
+  | cons x xs ih =>
+    simp only [List.contains_cons, Bool.or_eq_false_iff, beq_eq_false_iff_ne, ne_eq] at h
+    have hx : x ≠ '=' := fun hh => h.1 hh.symm
+    have := ih h.2
+    simp only [List.cons_append, List.takeWhile_cons, List.dropWhile_cons, hx, ne_eq, not_false_eq_true,
+      decide_true, if_true, this.1, this.2, and_self]
+
+theorem takeWhile_plain' (n : Str) (h : n.contains '=' = false) :
+    n.takeWhile (· ≠ '=') = n ∧ n.dropWhile (· ≠ '=') = [] := by
+  induction n with
+  | nil => simp
+  | cons x xs ih =>
+    simp only [List.contains_cons, Bool.or_eq_false_iff, beq_eq_false_iff_ne, ne_eq] at h
+    have hx : x ≠ '=' := fun hh => h.1 hh.symm
+    have := ih h.2
+    simp only [List.takeWhile_cons, List.dropWhile_cons, hx, ne_eq, not_false_eq_true,
+      decide_true, if_true, this.1, this.2, and_self]
+
+theorem lex_long_equals (n v : Str) (o : Opt) (hn : findOpt n = some o) (hp : plainName n = true) :
+    lex ('-' :: '-' :: (n ++ '=' :: v)) = .opt o (some v) := by
+  simp only [plainName, Bool.and_eq_true, Bool.not_eq_true', List.isEmpty_eq_false_iff] at hp
+  have ht := takeWhile_plain n v hp.2
+  have hne : n ++ '=' :: v ≠ [] := by simp
+  simp only [lex, hne, if_false, ht.1, ht.2, hn]
+
+theorem lex_long_bare (n : Str) (o : Opt) (hn : findOpt n = some o) (hp : plainName n = true) :
+    lex ('-' :: '-' :: n) = .opt o none := by
+  simp only [plainName, Bool.and_eq_true, Bool.not_eq_true', List.isEmpty_eq_false_iff] at hp
+  have ht := takeWhile_plain' n hp.2
+  simp only [lex, hp.1, if_false, ht.1, ht.2, hn]
+
+/-- `--name=value` -/
+theorem long_equals (n v : Str) (o : Opt) (rest : List Str) (hn : findOpt n = some o) (hp : plainName n = true) :
+    lexAll (('-' :: '-' :: (n ++ '=' :: v)) :: rest) = .opt o (some v) :: lexAll rest := by
+  rw [lexAll_cons, shortBody_long, lex_long_equals n v o hn hp]
+
+/-- `--name value` (two arguments) -/
+theorem long_two_args (n v : Str) (o : Opt) (rest : List Str) (hn : findOpt n = some o) (hp : plainName n = true)
+    (hk : o.kind ≠ .flag) (hv : isValue v = true) :
+    lexAll (('-' :: '-' :: n) :: v :: rest) = .opt o (some v) :: lexAll rest := by
+  rw [lexAll_cons, shortBody_long, lex_long_bare n o hn hp]
+  simp [hk, hv]
+
+/-- every long name and visible alias of the table is plain -/
+theorem names_plain : (Opt.all.all fun o => o.names.all fun n => plainName n.toList) = true := by decide
+
+/-- SPELLINGS: an option that takes a value gives the same token — hence, by `parseArgs`, the same configuration — however
+it is written: `--name=value`, `--name value`, `-c value`, `-c=value`, `-cvalue`, under any of its names -/
+theorem option_spellings (n n' v : Str) (c : Char) (o : Opt) (rest : List Str)
+    (hn : findOpt n = some o) (hp : plainName n = true) (hn' : findOpt n' = some o) (hp' : plainName n' = true)
+    (hc : findShort c = some o) (hk : o.kind ≠ .flag)
+    (hv : isValue v = true) (hv0 : v ≠ []) (hv1 : v.head? ≠ some '=') :
+    let canonical := lexAll (('-' :: '-' :: (n ++ '=' :: v)) :: rest)
+    lexAll (('-' :: '-' :: (n' ++ '=' :: v)) :: rest) = canonical ∧
+    lexAll (('-' :: '-' :: n') :: v :: rest) = canonical ∧
+    lexAll (['-', c] :: v :: rest) = canonical ∧
+    lexAll (('-' :: c :: '=' :: v) :: rest) = canonical ∧
+    lexAll (('-' :: c :: v) :: rest) = canonical := by
+  simp only [long_equals n v o rest hn hp, long_equals n' v o rest hn' hp', long_two_args n' v o rest hn' hp' hk hv,
+    short_two_args c o v rest hc hk hv, short_equals c o v rest hc hk, short_attached c o v rest hc hk hv0 hv1,
+    and_self]
+
+/-- non-vacuity, and the spellings on a concrete line -/
+example : parseArgs ["--choose=.a".toList, "--skip=2".toList, "--unique".toList, "f.json".toList]
+    = parseArgs ["-uc".toList, ".a".toList, "-k2".toList, "f.json".toList] := by
+  have h : lexAll ["--choose=.a".toList, "--skip=2".toList, "--unique".toList, "f.json".toList] =
+      [.opt .select (some ".a".toList), .opt .skip (some "2".toList), .opt .unique none, .file "f.json".toList] := by decide
+  have h' : lexAll ["-uc".toList, ".a".toList, "-k2".toList, "f.json".toList] =
+      [.opt .unique none, .opt .select (some ".a".toList), .opt .skip (some "2".toList), .file "f.json".toList] := by decide
+  apply parseArgs_order_independent
+  rw [h, h']
+  refine ⟨by decide, fun o => ?_, by decide⟩
+  cases o <;> decide
+
+/-- what clap does NOT take as a value: an argument that starts with `-` (other than the lone `-`) -/
+theorem value_must_not_look_like_an_option :
+    (parseArgs ["--skip".toList, "-1".toList]).isNone = true ∧
+    (parseArgs ["--choose".toList, "-x".toList]).isNone = true ∧
+    lexAll ["--choose".toList, "-".toList] = [.opt .select (some "-".toList)] ∧
+    lexAll ["-cu".toList, ".a".toList] = [.opt .select (some "u".toList), .file ".a".toList] := by
   decide
 
 /-! ## the exception is real; non-vacuity -/
